@@ -481,15 +481,19 @@ class Visitor(ast.NodeVisitor):
 
         result = None  # type: Optional[Any]
 
+        # NOTE: We must distinguish between a name which is bound to ``None`` and a name which can not be resolved.
+        # Otherwise, an argument bound to ``None`` would be taken for a built-in of the same name (*e.g.*, ``id``)
+        # or for a name local to the lambda.
         if node.id in self._name_to_value:
             result = self._name_to_value[node.id]
-
-        if result is None and hasattr(builtins, node.id):
+        elif hasattr(builtins, node.id):
             result = getattr(builtins, node.id)
-
-        if result is None and node.id != "None":
+        elif node.id != "None":
             # The variable refers to a name local of the lambda (e.g., a target in the generator expression).
-            # Since we evaluate generator expressions with runtime compilation, None is returned here as a placeholder.
+            # Since we evaluate generator expressions with runtime compilation, a placeholder is returned here.
+            return PLACEHOLDER
+
+        if result is PLACEHOLDER:
             return PLACEHOLDER
 
         self.recomputed_values[node] = result
